@@ -5,6 +5,7 @@ import (
 	"fmt"
 	"math/rand"
 	"strings"
+	"sync"
 
 	"github.com/cockroachdb/pebble/vfs"
 	"github.com/jamf/regatta/regattapb"
@@ -27,10 +28,25 @@ type simHost struct {
 	nextIdx  uint64
 	calls    []string // "sync" / "stale" per read, in order
 	lastRead int      // applied count of the replica that served the last read
+	// concurrent clients: a proposal made while holdNext is set is appended to the log and waits; the next proposal
+	// applies both in ONE Update call on the leader (what dragonboat does with proposals that arrive together)
+	mu         sync.Mutex
+	holdNext   bool
+	held       []heldProposal
+	registered chan struct{}
+}
+
+type heldProposal struct {
+	pos int
+	ch  chan heldResult
+}
+type heldResult struct {
+	res sm.Result
+	err error
 }
 
 func newSimHost(r *rand.Rand, n int) (*simHost, error) {
-	h := &simHost{r: r, nextIdx: uint64(r.Intn(3))}
+	h := &simHost{r: r, nextIdx: uint64(r.Intn(3)), registered: make(chan struct{}, 1)}
 	for i := 0; i < n; i++ {
 		f, _, err := newRealFSM(vfs.NewMem(), fsm.RecoveryTypeSnapshot)
 		if err != nil {
@@ -69,12 +85,49 @@ func (h *simHost) catchUp(i, upto int) (sm.Result, error) {
 }
 
 func (h *simHost) SyncPropose(_ context.Context, _ *client.Session, cmd []byte) (sm.Result, error) {
+	h.mu.Lock()
 	h.nextIdx += uint64(1 + h.r.Intn(2))
 	h.log = append(h.log, sm.Entry{Index: h.nextIdx, Cmd: cmd})
-	// replica 0 is the leader: it applies at once (possibly together with entries it had not applied yet)
-	res, err := h.catchUp(0, len(h.log))
-	if err != nil {
-		return sm.Result{}, err
+	if h.holdNext {
+		h.holdNext = false
+		ch := make(chan heldResult, 1)
+		h.held = append(h.held, heldProposal{len(h.log) - 1, ch})
+		h.mu.Unlock()
+		h.registered <- struct{}{}
+		r := <-ch
+		return r.res, r.err
+	}
+	defer h.mu.Unlock()
+	var res sm.Result
+	var err error
+	if len(h.held) > 0 {
+		// everything the leader has not applied yet goes into one apply call
+		from := h.applied[0]
+		batch := make([]sm.Entry, len(h.log)-from)
+		copy(batch, h.log[from:])
+		var out []sm.Entry
+		out, err = h.reps[0].f.Update(batch)
+		if err == nil {
+			h.applied[0] = len(h.log)
+			res = out[len(out)-1].Result
+		}
+		for _, hp := range h.held {
+			hr := heldResult{err: err}
+			if err == nil {
+				hr.res = out[hp.pos-from].Result
+			}
+			hp.ch <- hr
+		}
+		h.held = nil
+		if err != nil {
+			return sm.Result{}, err
+		}
+	} else {
+		// replica 0 is the leader: it applies at once
+		res, err = h.catchUp(0, len(h.log))
+		if err != nil {
+			return sm.Result{}, err
+		}
 	}
 	// followers lag by a random amount
 	for i := 1; i < len(h.reps); i++ {
@@ -150,6 +203,59 @@ func runC10(args []string) error {
 		nops := 6 + r.Intn(15)
 		for o := 0; o < nops; o++ {
 			in := func() map[string]any { return map[string]any{"script": strings.Join(descr, " ; ")} }
+			if r.Intn(5) == 0 {
+				// two clients write at the same time: both proposals are applied by ONE Update call on the leader; the
+				// responses must still be those of the two writes taken one after the other in revision order
+				k1 := g.key()
+				k2 := k1
+				if r.Intn(3) == 0 {
+					k2 = g.key()
+				}
+				pa := &regattapb.PutRequest{Table: []byte("t"), Key: k1, Value: g.val(), PrevKv: r.Intn(3) > 0}
+				pb := &regattapb.PutRequest{Table: []byte("t"), Key: k2, Value: g.val(), PrevKv: true}
+				descr = append(descr, fmt.Sprintf("concurrently{put[%s=%s prev=%v] put[%s=%s prev=%v]}", q(pa.Key), q(pa.Value), pa.PrevKv, q(pb.Key), q(pb.Value), pb.PrevKv))
+				ho.Inc("concurrent-put-pair")
+				type putRes struct {
+					resp *regattapb.PutResponse
+					err  error
+				}
+				ach := make(chan putRes, 1)
+				h.mu.Lock()
+				h.holdNext = true
+				h.mu.Unlock()
+				go func() {
+					resp, err := at.Put(ctx, pa)
+					ach <- putRes{resp, err}
+				}()
+				<-h.registered
+				respB, err := at.Put(ctx, pb)
+				if err != nil {
+					return err
+				}
+				ra := <-ach
+				if ra.err != nil {
+					return ra.err
+				}
+				for j, pr := range []struct {
+					p    *regattapb.PutRequest
+					resp *regattapb.PutResponse
+				}{{pa, ra.resp}, {pb, respB}} {
+					idx := h.log[len(h.log)-2+j].Index
+					rev := pr.resp.Header.GetRevision()
+					if rev != idx || rev <= lastRev {
+						sum.violate(c, "acknowledged mutation reports a revision that is not its log position", in(), fmt.Sprintf("revision %d index %d previous %d (concurrent pair)", rev, idx, lastRev))
+					}
+					lastRev = idx
+					cmd, _ := wireNormal(gCmd{Kind: regattapb.Command_PUT, K: pr.p.Key, V: pr.p.Value, Prev: pr.p.PrevKv})
+					steps = append(steps, gStep{Kind: 0, Entries: []gEntry{{Idx: idx, Cmd: cmd}}})
+					prev := oL()
+					if pr.resp.PrevKv != nil {
+						prev = oL(oKV(pr.resp.PrevKv))
+					}
+					obs = append(obs, oL(oL(oL(oU(1), oBool(true), oU(rev), oL(oL(oN(1), prev)))), oU(idx)))
+				}
+				continue
+			}
 			switch k := r.Intn(10); {
 			case k < 3: // put
 				p := &regattapb.PutRequest{Table: []byte("t"), Key: g.key(), Value: g.val(), PrevKv: r.Intn(2) == 0}
